@@ -18,7 +18,8 @@ TARGETS = {
     'C15': [('arma', 'arma_estimate', ['X']), ('arma', 'ma', ['X']), ('arma', 'arma2psd', ['A', 'B'])],
     'C16': [('minvar', 'minvar', ['X'])],
     'C17': [('eigenfre', 'eigen', ['X'])],
-    'C19': [('mtm', 'pmtm', ['x', 'e', 'v'])],
+    'C18': [('mtm', 'dpss', [])],
+    'C19': [('mtm', 'pmtm', ['x', 'e', 'v']), ('mtm', 'dpss', [])],
     'C08': [('arma', 'arma2psd', ['A', 'B'])],
 }
 
